@@ -34,6 +34,15 @@ use white_whale_std::pool_network::trio as t;
 const E18: u128 = 1_000_000_000_000_000_000;
 const ACCTS: [&str; 6] = ["user0", "user1", "user2", "user3", "collector", "owner"];
 const DENOMS: [&str; 3] = ["ua", "ub", "uc"];
+/// denom triples the history worlds are built with (chosen by `(amp + h) % 4`, a function of the init
+/// line, so the line format is unchanged): plain denoms, IBC vouchers (upper-case hex), a token-factory
+/// denom whose last segment is another asset's denom, denoms that are prefixes of each other
+const DENOM_SETS: [[&str; 3]; 4] = [
+    ["ua", "ub", "uc"],
+    ["ibc/27394FB092D2ECCD56123C74F36E4C1F926001CEADA9CA97EA622B25F41E5EB2", "uusd", "ibc/B3504E092456BA618CC28AC671A71FB08C6CA0FD0BE7C8A5B5A3E2DD933CC9E4"],
+    ["uwhale", "factory/migaloo1creator/uwhale", "uwhalex"],
+    ["uusd", "uusdc", "factory/migaloo1creator/uusd"],
+];
 const FOREIGN: &str = "ux";
 /// a denom unrelated to the pool, held by every account (attached to foreign entry points)
 const JUNK: &str = "ujunk";
@@ -429,6 +438,7 @@ struct World {
     lp: Addr,
     infos: [AssetInfo; 3],
     native: [bool; 3],
+    denoms: [&'static str; 3],
     sup0: [u128; 3],
     // monitor-side ghost sums (from events / balance deltas)
     charged: [u128; 3],
@@ -486,12 +496,13 @@ impl World {
         if native.len() != 3 || !kinds.chars().all(|c| c == 'n' || c == 'c') {
             return None;
         }
+        let dset: [&'static str; 3] = DENOM_SETS[((amp.wrapping_add(h)) % DENOM_SETS.len() as u64) as usize];
         let mut app = AppBuilder::new().build(|router, _api, storage| {
             for a in ACCTS {
                 let mut cs: Vec<Coin> = vec![];
                 for i in 0..3 {
                     if native[i] && fund > 0 {
-                        cs.push(coin(fund, DENOMS[i]));
+                        cs.push(coin(fund, dset[i]));
                     }
                 }
                 cs.push(coin(1u128 << 100, FOREIGN));
@@ -513,14 +524,14 @@ impl World {
         let mut infos: Vec<AssetInfo> = vec![];
         for i in 0..3 {
             if native[i] {
-                infos.push(AssetInfo::NativeToken { denom: DENOMS[i].into() });
+                infos.push(AssetInfo::NativeToken { denom: dset[i].into() });
             } else {
                 let addr = app
                     .instantiate_contract(
                         token_id,
                         owner.clone(),
                         &white_whale_std::pool_network::token::InstantiateMsg {
-                            name: format!("token{}", DENOMS[i]),
+                            name: format!("token{}", ["A", "B", "C"][i]),
                             symbol: format!("TK{}", ["A", "B", "C"][i]),
                             decimals: 6,
                             initial_balances: ACCTS.iter().map(|a| Cw20Coin { address: a.to_string(), amount: Uint128::new(fund) }).collect(),
@@ -580,6 +591,7 @@ impl World {
             lp,
             infos,
             native,
+            denoms: dset,
             sup0: [6 * fund; 3],
             charged: [0; 3],
             sent: [0; 3],
@@ -813,7 +825,7 @@ impl Trio {
                     _ => [1, 0, 2],
                 };
                 let assets = perm.map(|i| Asset { info: w.infos[i].clone(), amount: Uint128::new(d[i]) });
-                let funds: Vec<Coin> = (0..3).filter(|i| w.native[*i] && d[*i] > 0).map(|i| coin(d[i], DENOMS[i])).collect();
+                let funds: Vec<Coin> = (0..3).filter(|i| w.native[*i] && d[*i] > 0).map(|i| coin(d[i], w.denoms[i])).collect();
                 let msg = t::ExecuteMsg::ProvideLiquidity { assets, slippage_tolerance: dec(*slip), receiver: recv.map(|r| ACCTS[r].to_string()) };
                 let app = &mut w.app;
                 guarded(|| app.execute_contract(sender.clone(), pool.clone(), &msg, &funds))
@@ -880,9 +892,9 @@ impl Trio {
                 }
             },
             ParsedOp::Foreign(0, sel, amt) => {
-                let first_native = (0..3).find(|i| w.native[*i]).map(|i| DENOMS[i]).unwrap_or(FOREIGN);
+                let first_native = (0..3).find(|i| w.native[*i]).map(|i| w.denoms[i]).unwrap_or(FOREIGN);
                 let funds: Vec<Coin> = match *sel {
-                    i @ 0..=2 => vec![coin(*amt, DENOMS[i])],
+                    i @ 0..=2 => vec![coin(*amt, w.denoms[i])],
                     3 => vec![coin(*amt, JUNK)],
                     4 => vec![],
                     5 => vec![coin(*amt, JUNK), coin(*amt, FOREIGN)],
